@@ -16,7 +16,7 @@
 (* coverage shows that no branch is vacuous.                               *)
 (***************************************************************************)
 EXTENDS Rewrite
-CONSTANTS Tier         \* "tiny", "quick" or "thorough": selects the bounded input domain Inputs (end of the module)
+CONSTANTS Tier         \* "tiny", "quick" or "thorough": selects the bounded input domain (In1 .. In4 below)
 VARIABLES files,       \* the control files now
           mem,         \* what qmail-send holds in memory (after defaults)
           hist,        \* observable history of the control files (for the monitor)
@@ -25,8 +25,8 @@ VARIABLES files,       \* the control files now
           pc, addr, i, at,   \* rewrite(): program counter, stralloc addr, i, at
           outL, outR,  \* local/<id>, remote/<id>
           dl,          \* delivery commands written to the spawners
-          round,       \* 0 first message, 1 edited, 2 edited (+hup?), 3 second message
-          edits
+          round,       \* 0 first message, 1 control files edited, 2 HUP sent or not, 3 second message
+          edits        \* the configurations an edit may produce for this input
 vars == <<files, mem, hist, snd, msg, n, pc, addr, i, at, outL, outR, dl, round, edits>>
 
 \* ---- C helpers -----------------------------------------------------------
